@@ -9,13 +9,20 @@ package logs
 
 // GetApparmorLogs reads every line of its input: when it returns, the scanner has passed
 // all the lines of the reader (it does not stop early on a long line), and nothing panics.
+// It reports the cleaned text of every line its filter expression matches (unless it cleans
+// to nothing), reports nothing else, and reports no text twice.
 // scanpos/scanlines are the ghost position and line count of the bufio.Scanner model.
 //@ func GetApparmorLogs
 //@   opt prop=C14
 //@   assigns nothing
 //@   loop 1 invariant 0 <= scanpos(file) && scanpos(file) <= scanlines(file)
+//@   loop 1 invariant forall(k, 0, scanpos(file), imp(ext("(*regexp.Regexp).MatchString", isAppArmorLog, scanline(file, k)) && util.RegexReplList.Replace(regCleanLogs, util.DecodeHexInString(scanline(file, k))) != "", mem(logs, util.RegexReplList.Replace(regCleanLogs, util.DecodeHexInString(scanline(file, k))))))
+//@   loop 1 invariant forall_str(x, imp(mem(logs, x), exists(k, 0, scanpos(file), ext("(*regexp.Regexp).MatchString", isAppArmorLog, scanline(file, k)) && x == util.RegexReplList.Replace(regCleanLogs, util.DecodeHexInString(scanline(file, k))))))
 //@   loop 1 decreases scanlines(file) - scanpos(file)
 //@   ensures scanpos(file) == scanlines(file)
+//@   ensures forall(k, 0, scanlines(file), imp(ext("(*regexp.Regexp).MatchString", final(isAppArmorLog), scanline(file, k)) && util.RegexReplList.Replace(regCleanLogs, util.DecodeHexInString(scanline(file, k))) != "", mem(result, util.RegexReplList.Replace(regCleanLogs, util.DecodeHexInString(scanline(file, k))))))
+//@   ensures forall_str(x, imp(mem(result, x), exists(k, 0, scanlines(file), ext("(*regexp.Regexp).MatchString", final(isAppArmorLog), scanline(file, k)) && x == util.RegexReplList.Replace(regCleanLogs, util.DecodeHexInString(scanline(file, k))))))
+//@   ensures forall(i, 0, len(result), forall(j, i+1, len(result), result[i] != result[j]))
 
 // New parses each record on its own: the package variable `quoted` (the quote state of the
 // field splitter) is written before it is read in every iteration.
